@@ -159,6 +159,16 @@ def export_cases(ctx, rng, n, tid0):
         d = ctx.sub("exp") / str(k)
         d.mkdir()
         ev = {"act": "Export", "exported": True, "refused": False, "same": True, "diff": [], "eb": eb, "yields": yl, "ices": chosen}
+        if k % 5 == 1 and k % 4 != 3:
+            # a binding energy given through the PER-SPECIES setter (`Species.binding_energy = ...`, on every object that stands for the ice)
+            # instead of the module-wide table: the direct rendering uses it, so the exported project must bring it back
+            pick = next((s_ for s_ in chosen if s_ not in eb), None)
+            if pick:
+                for r3 in reacs:
+                    for sp in r3.reactants + r3.products:
+                        if sp.name == pick:
+                            sp.binding_energy = 1575.0
+                ev["eb_by_setter"] = {pick: 1575.0}
         try:
             with quiet():
                 # (an entry with NO dependency species is a constant source term; it stands before one that has a dependency)
